@@ -175,8 +175,8 @@ var plans = map[string]*plan{
 		Quick:       []batchSpec{{Test: "TestC19", N: 4, Timeout: 10 * m}},
 		Thorough:    []batchSpec{{Test: "TestC19", N: 4, Timeout: 10 * m}},
 		EvalStats:   []string{"c19.runs"},
-		Floors:      map[string]int64{"c19.runs": 96, "c19.pings_answered": 1000, "classes": 96},
-		Exhaustive:  func(r *result) bool { return r.stats["c19.runs"] == 96 },
+		Floors:      map[string]int64{"c19.runs": 126, "c19.pings_answered": 1000, "classes": 126},
+		Exhaustive:  func(r *result) bool { return r.stats["c19.runs"] == 126 },
 		Assumptions: []string{"virtual time (testing/synctest) changes when timers fire, not what the code does when they fire"},
 	},
 	"C02": {
